@@ -14,6 +14,8 @@ for d in sorted((Path(__file__).resolve().parent.parent / "seeded").iterdir()):
             cb.append(f"{c['check']} ({c['with_failing_input']} failing input{'s' if c['with_failing_input'] != 1 else ''})")
         else:
             cb.append(f"{c['check']}: silent")
+    if m.get("neutralised_by"):
+        cb = ["no longer breaks the property: " + m["neutralised_by"].split(":")[0]]
     rows.append(f"| {d.name} | {s} | {'; '.join(cb) or 'not run'} |")
 print("| change | what it does | checks (quick tier) |\n|---|---|---|")
 print("\n".join(rows))
